@@ -370,7 +370,7 @@ def exec_op(w, op):
     # ---- buffers
     elif o == 'b_new':
         B.append(None)
-        B[-1] = Buffer(op['frames'], op['channels'], w.srv, op.get('bufnum'), compl(w, op['compl']), alloc=op.get('alloc', True))
+        B[-1] = Buffer(op['frames'], op['channels'], w.srv, op.get('bufnum'), compl(w, op['compl']), alloc=op.get('alloc', True), cache=op.get('cache', True))
     elif o == 'b_consecutive':
         lst = Buffer.new_consecutive(op['n'], op['frames'], op['channels'], w.srv, op.get('bufnum'), compl(w, op['compl']))
         B.extend(lst)
